@@ -15,8 +15,10 @@ from hypothesis import strategies as st
 from vfw import gprtree, specs
 
 N_RID, N_MID, N_GID = 12, 8, 8
-RID = [f"R{i}" for i in range(N_RID)]
-MID = [f"M{i}" for i in range(N_MID)]
+# the last entries are identifiers that make the operation fail: a clash with a user variable of that name (if one
+# exists at that moment) and identifiers the solver layer rejects (whitespace). A failing operation must change nothing.
+RID = [f"R{i}" for i in range(N_RID)] + ["uvar0", "uvar1", "R 1"]
+MID = [f"M{i}" for i in range(N_MID)] + ["M 1"]
 GID = [f"g{i}" for i in range(N_GID)]
 
 # ops that the documentation (docstrings / @resettable / statement of C03) declares reversible in a context
@@ -28,6 +30,8 @@ REVERSIBLE = {
 }
 
 _k = st.integers(0, 23)
+_rid_new = st.one_of(*([st.integers(0, N_RID - 1)] * 5), st.integers(N_RID, N_RID + 2))
+_mid_new = st.one_of(*([st.integers(0, N_MID - 1)] * 7), st.just(N_MID))
 _coef = st.sampled_from([-3, -2, -1, -1, 1, 1, 2, 3, 0.5, -1.5])
 _bnd = specs.bounds("general")
 _trees = gprtree.opt_trees(GID[:6], max_fan=3)
@@ -37,8 +41,19 @@ def _d(_opname, **kw):
     return st.fixed_dictionaries({"op": st.just(_opname), **kw})
 
 
+def _rxn_spec(idx):
+    return st.fixed_dictionaries({
+        "id": idx,
+        "mets": st.lists(st.tuples(st.integers(0, N_MID - 1), _coef), max_size=3, unique_by=lambda t: t[0]),
+        "b": _bnd,
+        "rule": _trees,
+        "met_mode": st.sampled_from(["model", "model", "copy", "fresh"]),
+    })
+
+
+_new_rxn_plain = _rxn_spec(st.integers(0, N_RID - 1))
 _new_rxn = st.fixed_dictionaries({
-    "id": st.integers(0, N_RID - 1),
+    "id": _rid_new,
     "mets": st.lists(st.tuples(st.integers(0, N_MID - 1), _coef), max_size=3, unique_by=lambda t: t[0]),
     "b": _bnd,
     "rule": _trees,
@@ -51,11 +66,11 @@ OPS: Dict[str, Any] = {
                            orphans=st.booleans(), single=st.booleans(), via=st.sampled_from(["model", "model", "rxn"])),
     "readd": _d("readd", k=_k),
     "detached_bounds": _d("detached_bounds", k=_k, b=_bnd),
-    "add_metabolites": _d("add_metabolites", mets=st.lists(st.integers(0, N_MID - 1), min_size=1, max_size=3, unique=True), single=st.booleans()),
+    "add_metabolites": _d("add_metabolites", mets=st.lists(_mid_new, min_size=1, max_size=3, unique=True), single=st.booleans()),
     "remove_metabolites": _d("remove_metabolites", sels=st.lists(_k, min_size=1, max_size=2), destructive=st.booleans(),
                              via=st.sampled_from(["model", "model", "met"])),
     "add_boundary": _d("add_boundary", met=_k, type=st.sampled_from(["exchange", "demand", "sink", "custom"]),
-                       rid=st.one_of(st.none(), st.integers(0, N_RID - 1)), b=st.one_of(st.none(), _bnd)),
+                       rid=st.one_of(st.none(), _rid_new), b=st.one_of(st.none(), _bnd)),
     "rxn_add_mets": _d("rxn_add_mets", rxn=_k, mets=st.lists(st.tuples(st.integers(0, N_MID - 1), _coef, st.sampled_from(["obj", "obj", "id", "copy"])),
                                                                 min_size=1, max_size=3, unique_by=lambda t: t[0]),
                        combine=st.booleans(), subtract=st.booleans()),
@@ -66,8 +81,8 @@ OPS: Dict[str, Any] = {
     "knock_out_model_genes": _d("knock_out_model_genes", genes=st.lists(_k, min_size=1, max_size=3), by=st.sampled_from(["obj", "id", "index"])),
     "remove_genes": _d("remove_genes", genes=st.lists(_k, min_size=1, max_size=2), remove_reactions=st.booleans(), by=st.sampled_from(["obj", "id"])),
     "rename_genes": _d("rename_genes", pairs=st.lists(st.tuples(_k, st.integers(0, N_GID - 1)), min_size=1, max_size=3, unique_by=lambda t: t[0])),
-    "rename_rxn": _d("rename_rxn", rxn=_k, new=st.integers(0, N_RID - 1)),
-    "rename_met": _d("rename_met", met=_k, new=st.integers(0, N_MID - 1)),
+    "rename_rxn": _d("rename_rxn", rxn=_k, new=_rid_new),
+    "rename_met": _d("rename_met", met=_k, new=_mid_new),
     "objective": _d("objective", kind=st.sampled_from(["rxn", "id", "index", "dict", "list", "coef", "coef"]), rxns=st.lists(_k, min_size=1, max_size=3),
                     coefs=st.lists(st.sampled_from([1, 1, -1, 2, 0.5, 0]), min_size=3, max_size=3)),
     "direction": _d("direction", value=st.sampled_from(["max", "min", "min", "maximize", "MIN", "bogus"])),
@@ -96,7 +111,7 @@ OPS: Dict[str, Any] = {
     "tolerance": _d("tolerance", value=st.sampled_from([1e-7, 1e-6, 1e-9])),
     "helper": _d("helper", which=st.sampled_from(["fix_objective", "fix_objective", "add_pfba", "add_moma", "add_room", "add_loopless", "add_lp_feasibility", "abs_expr"]),
                  frac=st.sampled_from([1.0, 0.5, 0.9]), rxn=_k),
-    "merge": _d("merge", rxns=st.lists(_new_rxn, min_size=1, max_size=2, unique_by=lambda d: d["id"]), prefix=st.sampled_from([None, None, "x_"]), objective=st.sampled_from(["left", "left", "right", "sum"]),
+    "merge": _d("merge", rxns=st.lists(_new_rxn_plain, min_size=1, max_size=2, unique_by=lambda d: d["id"]), prefix=st.sampled_from([None, None, "x_"]), objective=st.sampled_from(["left", "left", "right", "sum"]),
                 inplace=st.booleans()),
 }
 
